@@ -411,6 +411,53 @@ def run(cx):
                         else:
                             r.ok(None)
 
+    # ---- C04-LED-EQUIV -----------------------------------------------------------------------
+    r = cx.rule("C04-LED-EQUIV", "for every reachable Led state (brightness 0..255 with state = brightness > 0) the firmware's on/off/toggle/set_brightness leave the same brightness, the same state and the same pin level as the host class (host methods and firmware command kernels evaluated over the complete state space)", floor=1000, exhaustive=True)
+    from .. import ckern as ckern_
+    hled = mod("Actuators/Led.py")
+    cx.consulted(hled)
+    HL = type("LedObj", (dl.Synth,), {})
+    cmds = [("LedOn", {}, "on", []), ("LedOff", {}, "off", []), ("LedToggle", {}, "toggle", [])] + [("LedSetBrightness", {"value": v_}, "set_brightness", [v_]) for v_ in (0, 1, 100, 254, 255)]
+    b0 = l2.functions_of(pe.emit_program(setup=[l2.decl_node("Led")], loop=[]).text, ["setup"])["setup"][0]["body"]
+    n_bad = 0
+    for cname, kw, meth, margs in cmds:
+        try:
+            node = cls[cname](name="dev", **kw)
+        except pe.IRRejected:
+            continue
+        res = pe.emit_program(setup=[l2.decl_node("Led"), node], loop=[])
+        body = l2.functions_of(res.text, ["setup"])["setup"][0]["body"][len(b0):]
+        hfn = hled.func(f"Led.{meth}")
+        for br in range(0, 256):
+            o = HL()
+            o.__dl_class__ = "Led"
+            o.pin, o.brightness, o.state = 7, br, br > 0
+            hit = dl.Interp(hled)
+            try:
+                hout = hit.call(hfn, [o] + list(margs))
+            except dl.Unsupported as e:
+                raise AnalysisError(f"host Led.{meth} left the evaluable subset: {e}")
+            k = ckern_.Kern(env={"__state_dev": int(br > 0), "__brightness_dev": br}, types={"__state_dev": "bool", "__brightness_dev": "int"})
+            try:
+                k.block(body)
+            except ckern_.KernUnsupported as e:
+                raise AnalysisError(f"{cname} kernel left the evaluable subset: {e}")
+            pin_events = [ev for ev in k.events if ev[0] in ("analogWrite", "digitalWrite") and ev[1] and ev[1][0] == 7]
+            level = None
+            if pin_events:
+                nm, (pin_, val_) = pin_events[-1]
+                level = (255 if val_ else 0) if nm == "digitalWrite" else val_
+            good = hout.kind == "return" and k.env["__brightness_dev"] == o.brightness and bool(k.env["__state_dev"]) == bool(o.state) and level == o.brightness
+            if good:
+                r.ok(None)
+            else:
+                n_bad += 1
+                if n_bad <= 3:
+                    r.fail(f"Led.{meth}/firmware=host", (em, em.func("_emit_block")), f"from brightness {br}: led.{meth}({', '.join(map(str, margs))}) leaves host (brightness {o.brightness}, state {o.state}) and firmware (brightness {k.env['__brightness_dev']}, state {bool(k.env['__state_dev'])}, pin level {level})", detail={"brightness": br, "method": meth})
+                else:
+                    r.stat.obligations += 1
+                    r.stat.failed += 1
+
     # ---- C04-COND ----------------------------------------------------------------------------
     r = cx.rule("C04-COND", "the branch decisions of time-sequenced commands are taken on the same quantities as in the host model (RGBLed.fade jumps straight to the target iff duration == 0 or the colour is already the target; blink/fade loop headers count what the host counts)", floor=4)
     res = pe.emit_program(setup=[l2.decl_node("RGBLed"), cls["RGBLedFade"](name="dev", red="H_r", green="H_g", blue="H_b", duration_ms="H_d", steps="H_s")], loop=[])
